@@ -52,14 +52,16 @@ def sync_gen_cfg(depth, **kw):
     return "SPECIFICATION GSpec\n" + sync_consts(**kw) + "  Depth = %d\nINVARIANTS Emit\nCHECK_DEADLOCK FALSE\n" % depth
 
 
-def layout_cfg(maxn, small_from, cfgs, perms, emit=True, small=("{0,1}", "{0,1}", "{0,5,6}"), inv=None):
+def layout_cfg(maxn, small_from, cfgs, perms, emit=True, small=("{0,1}", "{0,1}", "{0,5,6}"), inv=None,
+               vals=("{1,2,3}", "{0,1,2}", "{0,1,2}", "{0,5,6,7}")):
+    """vals = (KeyVals, LenVals, TRIds, AlignVals) of frames below small_from series."""
     return """SPECIFICATION Spec
 CONSTANTS
   MaxN = %d
-  KeyVals = {1,2,3}
-  LenVals = {0,1,2}
-  TRIds = {0,1,2}
-  AlignVals = {0,5,6,7}
+  KeyVals = %s
+  LenVals = %s
+  TRIds = %s
+  AlignVals = %s
   SmallFrom = %d
   N4TRIds = %s
   N4LenVals = %s
@@ -68,7 +70,7 @@ CONSTANTS
   Perms = {%s}
 INVARIANTS %s
 CHECK_DEADLOCK FALSE
-""" % (maxn, small_from, small[0], small[1], small[2], ",".join('"%s"' % c for c in cfgs),
+""" % (maxn, vals[0], vals[1], vals[2], vals[3], small_from, small[0], small[1], small[2], ",".join('"%s"' % c for c in cfgs),
        ",".join('"%s"' % p for p in perms), inv or ("AllSound Emit" if emit else "AllSound"))
 
 
@@ -184,7 +186,7 @@ def run_sync(ctx, V, ev):
     summ, bad, _ = go(ctx, "TestVerifCodecSync", hp, "sync")
     if summ["replayed"] != n:
         raise vlib.Inconclusive("sync: replayed %s of %s behaviours" % (summ["replayed"], n))
-    if not (summ["dec_frame"] and summ["dec_error"] and summ["dec_with_older_state"]):
+    if not (summ["dec_frame"] and summ["dec_error"] and summ["dec_with_older_state"] and summ.get("many_series_histories")):
         raise vlib.Inconclusive("sync replay vacuous: %s" % summ)
     ev["sync"] = {"behaviours": n, "depth": depth, "harness": summ}
     ev["traces_validated_against_impl"] += n
@@ -225,12 +227,22 @@ MAIN_CFGS = ["k3f", "k3v", "k13", "k3n"]
 
 def run_layout(ctx, V, ev):
     thorough = ctx.tier == "thorough"
+    # "trx": every time-range class per series (zero, two proper ranges, an instant non-zero range
+    # [t,t), a range with Start = 0 < End), equal across series and distinct, AND each frame also
+    # laid end to end to 14..16 series ("rep": repeated keys with equal alignments, alternating
+    # keys) - with and without alignment compression, fixed and variable types, a filtered key
+    TRX_CFGS = ["k3f", "k3n", "k2w", "k13"]
     if not thorough:
         plan = [("n2", dict(maxn=2, small_from=9, cfgs=ALL_CFGS, perms=["id", "rev"]), 4),
+                ("trx", dict(maxn=2, small_from=9, cfgs=TRX_CFGS, perms=["id", "rev", "rep"],
+                             vals=("{1,2}", "{0,1}", "{0,1,2,3,4}", "{0,5,6}")), 2),
                 ("n3s", dict(maxn=3, small_from=3, cfgs=MAIN_CFGS, perms=["id", "rev", "rot"],
                              small=("{0,1}", "{0,1,2}", "{0,5,6}")), 2)]
     else:
-        plan = [("n2", dict(maxn=2, small_from=9, cfgs=ALL_CFGS, perms=["id", "rev"]), 4),
+        plan = [("n2", dict(maxn=2, small_from=9, cfgs=ALL_CFGS, perms=["id", "rev", "rep"],
+                            vals=("{1,2,3}", "{0,1,2}", "{0,1,2,3,4}", "{0,5,6,7}")), 4),
+                ("trx", dict(maxn=3, small_from=9, cfgs=TRX_CFGS, perms=["id", "rev", "rot", "rep"],
+                             vals=("{1,2}", "{0,1}", "{0,1,2,3,4}", "{0,5,6}")), 2),
                 ("n3", dict(maxn=3, small_from=9, cfgs=MAIN_CFGS, perms=["id", "rev", "rot"]), 2),
                 ("n4s", dict(maxn=4, small_from=1, cfgs=["k3f", "k3v", "k13"], perms=["id", "rev", "rot"],
                              small=("{0,1}", "{0,1,2}", "{0,5,6}")), 2)]
@@ -264,7 +276,11 @@ def run_layout(ctx, V, ev):
         flags_seen = max(flags_seen, summ["flag_bytes_seen"])
         merged3 += summ["merged3"]
         lay.append({"run": tag, "frames": n, "cases": summ["cases"], "flag_bytes_seen": summ["flag_bytes_seen"],
-                    "merged2": summ["merged2"], "merged3": summ["merged3"], "wide_payload_cases": summ.get("wide_payload_cases", 0)})
+                    "merged2": summ["merged2"], "merged3": summ["merged3"], "wide_payload_cases": summ.get("wide_payload_cases", 0),
+                    "many_series_cases": summ.get("many_series_cases", 0), "tie_cases": summ.get("tie_cases", 0),
+                    "instant_range_cases": summ.get("instant_range_cases", 0)})
+        if tag == "trx" and not (summ.get("many_series_cases") and summ.get("tie_cases") and summ.get("instant_range_cases")):
+            raise vlib.Inconclusive("layout trx vacuous (frames of >= 13 series / ties on (key, alignment) / instant ranges): %s" % summ)
         if summ.get("wide_payload_cases", 0) == 0:
             raise vlib.Inconclusive("layout %s: no case with payloads above 64 KB was run" % tag)
         if tag == "n2" and smp:
@@ -471,8 +487,9 @@ def run(ctx):
     cov["exhaustive"] = True
     cov["drift"] = V.drift[:10]
     cov["rule"] = ("every behaviour of CodecSync.tla to the stated depth replayed into two real codecs; every abstract frame "
-                   "CodecLayout.tla enumerates (<= MaxN series over 3 keys, lengths 0..2, 3 time ranges, 4 alignments, "
-                   "fixed/variable types, subsets, repeated keys, 2-3 raw orders, up to 6 codec configurations) encoded and decoded "
+                   "CodecLayout.tla enumerates (<= MaxN series over 3 keys, lengths 0..2, time ranges zero / proper / nested / instant [t,t) / "
+                   "Start=0<End, 4 alignments, fixed/variable types, subsets, repeated keys, 2-4 raw orders incl. each frame laid end to "
+                   "end to 14..16 series with ties on (key, alignment), up to 6 codec configurations) encoded and decoded "
                    "by the real codec under 2-4 concretisations, compared up to key order and merging, plus flag byte and size; "
                    "every abstract input of CodecDecode.tla (64 flag bytes x 4 codec states x boundary classes x every truncation) "
                    "concretised and decoded under recover() with allocation accounting, plus seeded byte mutants, the 2^32-1 class "
